@@ -43,7 +43,8 @@ def _accepted(f, qual, sink):
         return None
     src = v.value.id
     defs = [n.value for n in ast.walk(f.node) if isinstance(n, ast.Assign) and any(isinstance(t, ast.Name) and t.id == src for t in n.targets)]
-    if defs and all("cotransform_cache.get_argnums(" in norm(d) for d in defs):
+    from_cache = [d for d in defs if "cotransform_cache.get_argnums(" in norm(d)]
+    if from_cache and all(d in from_cache or (isinstance(d, ast.Constant) and d.value is None) for d in defs):
         return ACCEPTED_REASON
     return None
 
